@@ -63,7 +63,7 @@ func fqRead(data []byte) (items []fqItem, panicked bool) {
 			} else {
 				kept = append(kept, f)
 			}
-			if len(kept) > 1000 {
+			if len(kept) > 200000 {
 				break
 			}
 		}
